@@ -544,7 +544,7 @@ impl<'a> DocGen<'a> {
             e.attrs.push((q, v));
         }
         if self.cfg.xml_space && self.rng.chance(1, 4) {
-            let v = *self.rng.pick(&["preserve", "preserve", "default", "other", ""]);
+            let v = *self.rng.pick(&["preserve", "preserve", "preserve", "default", "default", "other", "", " preserve", "preserve ", "\tpreserve", "PRESERVE", "preserved"]);
             e.attrs.push((QName::new(XML_NS, "space"), v.to_string()));
         }
         if self.cfg.xml_id && self.rng.chance(1, 4) {
